@@ -492,9 +492,25 @@ func (w *world) drain() {
 	// Whoever is still waiting now (e.g. for a queue without workers) is
 	// abandoned by its client.
 	k.Note("drain: clients and operator leave")
+	// From here on the schedule no longer comes from the tape (see
+	// Kernel.RunFair): cancellations first, then actors round-robin, then
+	// timers, then the clock.
+	fair := func(key string) int {
+		switch {
+		case strings.HasPrefix(key, "cancel "):
+			return 0
+		case strings.HasPrefix(key, "lock "), strings.HasPrefix(key, "go "), strings.HasPrefix(key, "rlock "), strings.HasPrefix(key, "trylock "):
+			return 1
+		case strings.HasPrefix(key, "timer "), strings.HasPrefix(key, "ctx-deadline "):
+			return 2
+		case strings.HasPrefix(key, "advance"):
+			return 3
+		}
+		return -1
+	}
 	w.leaving = true
-	for i := 0; i < 20; i++ {
-		k.Run(40)
+	for i := 0; i < 40; i++ {
+		k.RunFair(40, fair)
 		if k.Failed() {
 			return
 		}
@@ -510,8 +526,8 @@ func (w *world) drain() {
 	}
 	k.Note("drain: workers leave")
 	w.exiting = true
-	for i := 0; i < 20; i++ {
-		k.Run(40)
+	for i := 0; i < 40; i++ {
+		k.RunFair(40, fair)
 		if k.Failed() {
 			return
 		}
